@@ -31,6 +31,9 @@ def run_check(prop: str, tier: str, root: str, overlay=None, quiet=False, write=
     err = None
     try:
         mod.check(ctx)
+        from . import common
+
+        common.check(ctx)
         if tier == "thorough" and hasattr(mod, "check_thorough"):
             mod.check_thorough(ctx)
     except AnalysisError as e:
